@@ -113,8 +113,12 @@ def value_json(value, indent=None):
         result = _JSONEncoder(allow_nan=False, indent=indent, separators=(',', ': '), sort_keys=True).encode(value)
     else:
         result = _JSON_ENCODER_DEFAULT.encode(value)
-    result = _R_VALUE_JSON_NUMBER_CLEANUP.sub(r'', result)
-    return _R_VALUE_JSON_NUMBER_CLEANUP2.sub(r'\1', result)
+    return _R_VALUE_JSON_NUMBER_CLEANUP.sub(_value_json_number_cleanup, result)
+
+
+def _value_json_number_cleanup(match):
+    # String literals are matched whole and left untouched - only numbers outside of strings are cleaned up
+    return match.group(1) or ''
 
 
 class _JSONEncoder(json.JSONEncoder):
@@ -130,8 +134,7 @@ class _JSONEncoder(json.JSONEncoder):
 
 _JSON_ENCODER_DEFAULT = _JSONEncoder(allow_nan=False, separators=(',', ':'), sort_keys=True)
 
-_R_VALUE_JSON_NUMBER_CLEANUP = re.compile(r'\.0*$', re.MULTILINE)
-_R_VALUE_JSON_NUMBER_CLEANUP2 = re.compile(r'\.0*([,}\]])')
+_R_VALUE_JSON_NUMBER_CLEANUP = re.compile(r'("(?:[^"\\]|\\.)*")|\.0+(?=[,}\]\s]|$)')
 
 
 def value_boolean(value):
